@@ -1,4 +1,5 @@
 import Aiorpcx.C13.Step
+import Aiorpcx.C13.Table
 import Aiorpcx.Facts.C13
 /-!
 # C13 — property theorems for the concurrency limiter
@@ -669,6 +670,38 @@ theorem refused_at_zero (s : Lim) (h : Inv s) (hT : s.T ≤ 0) (ops : List Op)
       exact (List.append_eq_nil_iff.1 q).2
   · exact ⟨(r2 hw).1, (r2 hw).2, r1⟩
 
+theorem exitsOnly_noSetTarget (ops : List Op) : ∀ (s : Lim), exitsOnly s ops → noSetTarget ops := by
+  induction ops with
+  | nil => intro _ _; trivial
+  | cons op ops ih =>
+    intro s he
+    cases op with
+    | exit i => exact ⟨rfl, ih _ he.2⟩
+    | enter i => exact absurd he (by simp [exitsOnly])
+    | cancelWaiter i => exact absurd he (by simp [exitsOnly])
+    | setTarget n => exact absurd he (by simp [exitsOnly])
+
+/-- while the limit is ≤ 0 nobody gets in, so every exit shortens the list of holders -/
+theorem exits_at_zero (ops : List Op) : ∀ (s : Lim), Inv s → s.T ≤ 0 → exitsOnly s ops →
+    (run s ops).1.T = s.T ∧ (run s ops).1.holders.length + ops.length = s.holders.length := by
+  induction ops with
+  | nil => intro s _ _ _; exact ⟨rfl, by simp [run]⟩
+  | cons op ops ih =>
+    intro s h hT he
+    cases op with
+    | enter i => exact absurd he (by simp [exitsOnly])
+    | cancelWaiter i => exact absurd he (by simp [exitsOnly])
+    | setTarget n => exact absurd he (by simp [exitsOnly])
+    | exit i =>
+      obtain ⟨hi, he'⟩ := he
+      obtain ⟨eT, eH, _, _, _⟩ := exit_at_zero s h hT i hi
+      have r := ih (step s (.exit i)).1 (step_inv s _ h) (by rw [eT]; exact hT) he'
+      have hl := List.length_erase_of_mem hi
+      have hp := List.length_pos_of_mem hi
+      simp only [run, List.length_cons]
+      rw [eH] at r
+      exact ⟨by rw [r.1, eT], by omega⟩
+
 /-- the full statement as a predicate of a start state and a history leading to a limit ≤ 0 -/
 def refused_at_zero_full (start : Lim) : Prop :=
   ∀ pre ops : List Op, let s := (run start pre).1
@@ -859,17 +892,8 @@ def takeOps : Nat → List Int → Option (List Op × List Int)
   | n + 1, c :: a :: l => (takeOps n l).map (fun r => (opOf c a :: r.1, r.2))
   | _ + 1, _ => none
 
-/-- base-64 digits, least significant first -/
-def digits64 : Nat → Nat → List Nat
-  | 0, _ => []
-  | f + 1, n => if n = 0 then [] else (n % 64) :: digits64 f (n / 64)
-
-/-- a row of the facts tables: digits (value + 2) closed by a terminator digit -/
-def decodeRow (n : Nat) : List Int :=
-  ((digits64 400 n).dropLast).map (fun (d : Nat) => (d : Int) - 2)
-
-def rowOk (row : Nat) : Bool :=
-  match decodeRow row with
+def rowOk (row : List Int) : Bool :=
+  match row with
   | n :: k :: rest =>
       match takeOps k.toNat rest with
       | some (ops, obs) => decide (obsRun (init n) ops = obs)
